@@ -746,7 +746,7 @@ def _k7(ctx, rep, fns, av, k_counts):
                     host = getattr(cs.effect, "origin", None)
                     host = host if host is not None and host != "synthetic" else f
                     guarded = _inside_try_valueerror(host, cs.effect.node)
-                    on_output = arg is not None and any(sx[0] == "call" and M.callee_name(sx) in ("juniper_nonrandom_encrypt", "hash", "format", "b2a_hex") for sx in subterms(arg)) or (arg is not None and arg[0] == "const")
+                    on_output = arg is not None and any(sx[0] == "call" and M.callee_name(sx) in ("juniper_nonrandom_encrypt", "hash", "format", "b2a_hex") for sx in subterms(arg)) or (arg is not None and arg[0] in ("const", "fstr"))
                     why = "inside try/except ValueError" if guarded else "applied to an encoder output / pseudonym (%s)" % show(arg)[:50] if on_output else "unguarded"
                     # decrypting a NON-$9$ pseudonym raises: only licensed when the pseudonym is the $9$ encoder's output
                     ok = guarded
@@ -885,7 +885,17 @@ def c18(ctx, rep, with_k3=True):
 
 def _codec_structure(ctx, rep, NUM_ALPHA, EXTRA, ENCODING, fixedc):
     p, A, G = ctx.p, ctx.A, ctx.G
-    g = lambda n: ("global", JS, n)
+
+    def g(n):
+        # scalar module constants are propagated into terms as constants
+        try:
+            v = ctx.folder.module_const(JS, n)
+            if isinstance(v, (str, int)) and not isinstance(v, bool):
+                return ("const", v)
+        except Exception:
+            pass
+        return ("global", JS, n)
+
     ln = lambda t: ("call", ("builtin", "len"), (t,), ())
     f_dec = p.find_function("juniper_decrypt")
     f_enc = p.find_function("juniper_nonrandom_encrypt")
